@@ -117,17 +117,11 @@ Theorem gcd_exact : forall a b, norm a -> norm b ->
 Proof. exact FactsGcd.gcd_exact. Qed.
 Print Assumptions gcd_exact.
 
-(* fiBIntPowerMod: remainder (sign of the dividend) of the exact power.  Full statement of the property:
-     forall a b c, norm a -> norm b -> norm c -> val c <> 0 -> 0 <= val b ->
-       exists r, fiBIntPowerMod a b c = Some r /\ val r = Z.rem (val a ^ val b) (val c) /\ norm r
-   It is REFUTED at val b = 0, |val c| = 1 (the code answers 1, a^0 mod c is 0; see
-   FactsExamples.powermod_zero_exponent_unit_modulus_refuted, found on the real code by the check and keyed
-   "powmod:zero-exponent-unit-modulus").  Proved: everything else. *)
-Theorem powermod_exact_partial : forall a b c, norm a -> norm b -> norm c -> val c <> 0 -> 0 <= val b ->
-  (val b = 0 -> Z.abs (val c) <> 1) ->
+(* fiBIntPowerMod: remainder (sign of the dividend) of the exact power, every exponent >= 0, every modulus <> 0 *)
+Theorem powermod_exact : forall a b c, norm a -> norm b -> norm c -> val c <> 0 -> 0 <= val b ->
   exists r, fiBIntPowerMod a b c = Some r /\ val r = Z.rem (val a ^ val b) (val c) /\ norm r.
 Proof. exact FactsPowMod.powermod_exact. Qed.
-Print Assumptions powermod_exact_partial.
+Print Assumptions powermod_exact.
 
 (* radix input "[sign] RR r WW": RR the radix 2..36 in decimal, WW digits [0-9A-Z] of that radix;
    rval is the value of WW in that radix *)
